@@ -64,9 +64,22 @@ def contentString (e : PDU) (name : Bytes) : Option Bytes :=
     if d.err then none else some d.val
   | some _ => none
 
-/-- `Membership()`: the content is decoded first, then the state key must be present -/
+/-- `json.Unmarshal(exactMembersOnly(content, &s), &s)` for `s : struct{ <name> string }`: a content that is an
+    object is first restricted to the member named exactly `name` (the last one of that name, `exactFieldsOnly`
+    goes through a Go map); `null`, non-objects and an absent content reach `json.Unmarshal` unchanged -/
+def contentStringExact (e : PDU) (name : Bytes) : Option Bytes :=
+  match e.f.content with
+  | none => none
+  | some .null => some []
+  | some (.obj kvs) =>
+    let d := decString (lookupExact kvs name)
+    if d.err then none else some d.val
+  | some _ => none
+
+/-- `Membership()`: the content is decoded first (member name `membership` exactly), then the state key must be
+    present -/
 def membership (e : PDU) : Except Err Bytes :=
-  match contentString e b!"membership" with
+  match contentStringExact e b!"membership" with
   | none => .error errOther
   | some m => if e.f.stateKey.isNone then .error errOther else .ok m
 
